@@ -686,6 +686,23 @@ def array_stages(rep, tcfg, what, sigprefix):
         hist_stage(rep, nm, ["array-run"], "array", "ArrayTrace.tla", tcfg, wf, "full", what)
 
 
+def array_exact_stage(rep, tcfg, what, prefix):
+    """Threshold-exact search: the array algorithm is explored breadth-first (layer C) with element sizes chosen so that slab sizes can
+    land EXACTLY on the minimum / maximum (at slab 256: 21 + 47 + 60 = 128); TLC prints only the transitions whose successor has a slab
+    sitting exactly on a threshold - the states where '>=' against '>' in a lend / borrow / merge / split decision changes the outcome -
+    and every one of them is replayed."""
+    quick = rep.tier == "quick"
+    maxel = 7
+    consts = {"EmitEdges": "TRUE", "EmitExact": "TRUE", "MaxElems": maxel, "T": 256, "Sizes": "{27, 40, 47, 60}", "WithReads": "FALSE", "AllowPop": "FALSE"}
+    files, n, total = model_histories(rep, "MC_Array.tla", "MC_Array.cfg", consts,
+                                      "MC_Array T=256 Sizes={27,40,47,60} MaxElems=%d: transitions into a slab exactly on a threshold" % maxel,
+                                      {"cfg": {"T": 256}}, (lambda ops, key: frac(key + rep.seed, 1, 3)) if quick else None, prefix + "-exact", timeout=3000)
+    base = len(rep.distinct)
+    rep.distinct.update(range(base, base + n))
+    hist_stage(rep, prefix + "-exact-edges", ["array-run"], "array", "ArrayTrace.tla", tcfg, files, "edge", what)
+    rep.stages[prefix + "-exact-edges"]["selected_of_distinct_histories"] = [n, total]
+
+
 def check_C01(rep):
     rep.rule = ("histories = (a) every transition of the TLC state graph of the array algorithm (all shapes up to MaxElems, every "
                 "insert/set/remove/get/pop position incl. out-of-range) and (b) TLC-simulated growth walks at several slab sizes, "
@@ -722,6 +739,8 @@ def check_C05(rep):
     deep_map_shrink_stage(rep, "c05", "C05", "real OrderedMap " + what + " (three levels, shrinking)")
     thinning_family(rep, "c05", "real OrderedMap " + what + " (even thinning of a three-level map)", "real Array " + what + " (even thinning of a three-level array)")
     array_fan_stage(rep, "ArrayTrace_C05.cfg", "real Array " + what + " (operation on a full root index slab)", "c05")
+    array_exact_stage(rep, "ArrayTrace_C05.cfg", "real Array " + what + " (a slab exactly on a threshold)", "c05")
+    map_exact_stage(rep, "MapTrace_C05.cfg", "real OrderedMap " + what + " (a slab exactly on a threshold)", "c05")
     map_fan_stage(rep, "MapTrace_C05.cfg", "real OrderedMap " + what + " (operation on a full root index slab)", "c05")
     for (T, nkeys, mode, ksz, vs, maxel, num, depth) in ([(256, 40, "spread", 5, "{12, 40, 60, 101}", 107, 14, 150), (256, 24, "clustered", 5, "{12, 40}", 107, 8, 100)] if quick else
                                                          [(256, 40, "spread", 5, "{12, 40, 60, 101}", 107, 300, 400), (256, 24, "clustered", 5, "{12, 40, 90}", 107, 200, 300),
@@ -879,6 +898,23 @@ def map_slab_stage(rep, tcfg, what, prefix):
     rep.distinct.update(range(base, base + n))
     hist_stage(rep, prefix + "-map-slab-edges", ["map-run"], "map", "MapTrace.tla", tcfg, files, "edge", what)
     rep.stages[prefix + "-map-slab-edges"]["selected_of_distinct_histories"] = [n, total]
+
+
+def map_exact_stage(rep, tcfg, what, prefix):
+    """Threshold-exact search for maps (see array_exact_stage): the slab-level map algorithm explored breadth-first with value sizes chosen
+    so that data slabs can land exactly on the minimum / maximum size; only the transitions into such states are printed and replayed."""
+    quick = rep.tier == "quick"
+    files, n, total = model_histories(rep, "MC_MapSlab.tla", "MC_MapSlab.cfg",
+                                      {"EmitEdges": "TRUE", "EmitExact": "TRUE", "Keys": keyset(7), "MaxKeys": 7, "VSizes": EXACT_MAP_VSIZES, "WithReads": "FALSE"},
+                                      "MC_MapSlab T=256 7 keys x values %s: transitions into a slab exactly on a threshold" % EXACT_MAP_VSIZES,
+                                      {"cfg": {"T": 256, "limit": 255}}, (lambda ops, key: frac(key + rep.seed, 1, 3)) if quick else None, prefix + "-mexact", timeout=3000)
+    base = len(rep.distinct)
+    rep.distinct.update(range(base, base + n))
+    hist_stage(rep, prefix + "-map-exact-edges", ["map-run"], "map", "MapTrace.tla", tcfg, files, "edge", what)
+    rep.stages[prefix + "-map-exact-edges"]["selected_of_distinct_histories"] = [n, total]
+
+
+EXACT_MAP_VSIZES = "{20, 37, 54}"
 
 
 def map_stages(rep, tcfg, what, prefix, collide=True):
